@@ -2,6 +2,7 @@ package checks
 
 import (
 	"bytes"
+	"encoding/binary"
 	"fmt"
 	"math"
 	"os"
@@ -60,7 +61,126 @@ func mapsContain(lo, hi uintptr) (bool, string) {
 	return false, ""
 }
 
+// c11Huge: buffers of 4 GiB and more (never prefaulted: virtual memory only, a handful of pages are touched). Positions
+// are followed with plain integers; every claim must start at the ring position the commits so far put the tail at,
+// the stamps written at both ends of every committed claim must still be there while it is unconsumed, and a claim
+// that crosses the end of the ring must show up at its start.
+func c11Huge(c *vf.Case) {
+	r := c.Rng
+	size := []int{4 << 30, 6 << 30, 8<<30 + 4096, 5<<30 + 3*4096}[r.Intn(4)]
+	b, err := sbytes.NewMirroredBuffer(size, false)
+	if err != nil {
+		c.Logf("huge buffer of %d bytes: constructor failed here (%v): probe skipped", size, err)
+		c.Count("huge_buffer_probes_skipped", 1)
+		return
+	}
+	defer b.Destroy()
+	if b.Size() != size {
+		c.Failf("size-not-rounded-up-to-page", "NewMirroredBuffer(%d).Size()=%d", size, b.Size())
+		return
+	}
+	window := b.Claim(size)
+	if len(window) != size {
+		c.Failf("fresh-full-claim", "fresh buffer of %d granted a claim of %d", size, len(window))
+		return
+	}
+	base := uintptr(sliceAddr(window))
+	type stamp struct {
+		pos int // ring position
+		val uint64
+	}
+	var stamps []stamp // of committed, unconsumed claims, oldest first (two per claim)
+	head, used, tail := 0, 0, 0
+	put := func(p []byte, v uint64) { binary.LittleEndian.PutUint64(p, v) }
+	at := func(pos int) uint64 { return binary.LittleEndian.Uint64(window[pos : pos+8]) } // the window is 2*size long in memory; pos < size
+	_ = at
+	big := []int{1 << 32, 1<<32 + 4096, 5 << 30, 1<<31 + 8192, 3 << 30}
+	for step := 0; step < 12 && !c.Failed(); step++ {
+		free := size - used
+		if free >= 16 {
+			n := big[r.Intn(len(big))]
+			if r.Chance(1, 3) {
+				n = free - r.Intn(2)*4096
+			}
+			if n > free {
+				n = free
+			}
+			if n < 16 {
+				n = 16
+			}
+			s := b.Claim(n)
+			if len(s) != n {
+				c.Failf("claim-length", "Claim(%d) with %d free returned %d bytes (size=%d)", n, free, len(s), size)
+				return
+			}
+			off := int(uintptr(sliceAddr(s)) - base)
+			c.Logf("huge size=%d: Claim(%d) at offset %d (model tail %d, used %d)", size, n, off, tail, used)
+			if off != tail {
+				c.Failf("claim-not-at-ring-tail", "Claim(%d) starts at offset %d, successive commits put the tail at %d (size=%d, power-of-two=%v)", n, off, tail, size, size&(size-1) == 0)
+				return
+			}
+			v1, v2 := r.U64(), r.U64()
+			put(s[:8], v1)
+			put(s[n-8:], v2)
+			if off+n > size {
+				over := off + n - size
+				if over >= 8 && binary.LittleEndian.Uint64(window[over-8:over]) != v2 {
+					c.Failf("mirror-not-same-memory", "bytes written through a claim crossing the ring end at [%d,%d) are not visible at the ring start (size=%d)", size, off+n, size)
+					return
+				}
+			}
+			if got := b.Commit(n); got != n {
+				c.Failf("commit-return", "Commit(%d) with %d free returned %d", n, free, got)
+				return
+			}
+			stamps = append(stamps, stamp{off, v1}, stamp{(off + n - 8) % size, v2})
+			tail = (tail + n) % size
+			used += n
+		}
+		// every stamp of an unconsumed claim is still there
+		for _, st := range stamps {
+			var got uint64
+			if st.pos+8 <= size {
+				got = binary.LittleEndian.Uint64(window[st.pos : st.pos+8])
+			} else {
+				continue // straddles the end of the ring: visible through the mirror only, checked when it was written
+			}
+			if got != st.val {
+				c.Failf("used-bytes-corrupted-after-Commit", "huge buffer (size=%d): the bytes at ring position %d of a committed, unconsumed claim changed", size, st.pos)
+				return
+			}
+		}
+		if b.UsedSpace() != used || b.FreeSpace() != size-used {
+			c.Failf("space-accounting-after-Commit", "after Commit: UsedSpace=%d FreeSpace=%d Size=%d, model used=%d", b.UsedSpace(), b.FreeSpace(), b.Size(), used)
+			return
+		}
+		// consume whole claims from the oldest
+		for len(stamps) > 0 && r.Bool() {
+			first, last := stamps[0], stamps[1]
+			n := (last.pos + 8 - first.pos + size) % size
+			if n == 0 {
+				n = size
+			}
+			if got := b.Consume(n); got != n {
+				c.Failf("consume-return", "Consume(%d) with %d used returned %d", n, used, got)
+				return
+			}
+			head = (head + n) % size
+			used -= n
+			stamps = stamps[2:]
+		}
+	}
+	c.Count("huge_buffer_probes", 1)
+	c.Cover("huge_sizes", fmt.Sprintf("%d", size))
+}
+
 func runC11(c *vf.Case) {
+	if c.Index%97 == 3 {
+		c11Huge(c)
+		if c.Failed() {
+			return
+		}
+	}
 	r := c.Rng
 	req := c11Sizes[c.Index%len(c11Sizes)]
 	page := syscall.Getpagesize()
